@@ -122,7 +122,7 @@ def run(ctx, report):
         n = 0
         mism = None
         computed = []
-        for p in probes(fields, acc, ctx.seed):
+        for p in probes(fields, acc, ctx.seed, n_random=600 if ctx.tier == "thorough" else 24):
             args = [p.get(c, "") for c in acc]
             n += 1
             if ref is not None:
